@@ -17,16 +17,19 @@ Proof. unfold ex_rel, ex_ids. constructor. constructor. constructor. constructor
 
 (* the generated proof has three hashes and five flags [1;1;2;0;2]: every position of
    the tamper theorems exists, and the proof validates *)
+Definition ex_root := Eval vm_compute in merkle_root sha3_256 ex_ids.
+Definition ex_gen := Eval vm_compute in gen_proof sha3_256 ex_ids ex_rel.
+
 Example ex_proof :
   exists r hs fs, merkle_root sha3_256 ex_ids = Some r /\
     gen_proof sha3_256 ex_ids ex_rel = Ok (hs, fs) /\
     length hs = 3%nat /\ fs = [1;1;2;0;2] /\ Forall len32 hs /\
     validate sha3_256 hs fs ex_rel r = Some true.
 Proof.
-  destruct (merkle_root sha3_256 ex_ids) as [r|] eqn:R; [|vm_compute in R; discriminate].
-  destruct (gen_proof sha3_256 ex_ids ex_rel) as [[hs fs]| |] eqn:G; [|vm_compute in G; discriminate ..].
-  exists r, hs, fs. split; auto. split; auto.
-  vm_compute in R. vm_compute in G. injection R as <-. injection G as <- <-.
+  assert (R : merkle_root sha3_256 ex_ids = ex_root) by (vm_compute; reflexivity).
+  assert (G : gen_proof sha3_256 ex_ids ex_rel = ex_gen) by (vm_compute; reflexivity).
+  unfold ex_root in R. unfold ex_gen in G.
+  eexists. eexists. eexists. split; [exact R|]. split; [exact G|].
   split; [reflexivity|]. split; [reflexivity|].
   split; [repeat constructor|]. vm_compute. reflexivity.
 Qed.
